@@ -815,7 +815,21 @@ func C16_Skeleton() {
 	h2 := rt.Param("H2", 1) // hole size in two-hole skeletons
 	s := func(x string) []byte { return []byte(x) }
 	var in []byte
-	switch rt.Choose("skeleton", 7) {
+	switch rt.Choose("skeleton", 8) {
+	case 7:
+		// a decimal with symbolic digits and three free bytes after the
+		// fraction (exponent marker, exponent sign, digit, or anything else)
+		dg := func() []byte {
+			b := rt.Byte("in")
+			rt.Assume(isDigit(b))
+			return []byte{b}
+		}
+		fr := func() []byte {
+			b := rt.Byte("in")
+			rt.Assume(b != '\r')
+			return []byte{b}
+		}
+		in = cat(s("["), dg(), s("."), dg(), fr(), fr(), fr(), s("]"))
 	case 0:
 		in = cat(s("["), hole(h2), s(","), hole(h2), s("]"))
 	case 1:
